@@ -70,18 +70,23 @@ def replay(job):
         respell = idx % 3 == 1
         docs = "release notes.txt" if idx % 3 == 2 else "docs.txt"        # every third history: a configured file whose name git quotes in its status output
         pre = "./" if respell else ""
+        # every seventh history: a pre-commit hook that edits a configured file (a build stamp at the end of a.txt): its edit belongs to the bump commit
+        hooked = idx % 7 == 6
         # every fifth history: the config file lists itself with the pattern of a [project] table only (version = "..."), which finds the current_version line as well
         embedded = idx % 5 == 4 and not respell
         proj.write("bumpver.toml", project.bumpver_toml(prj["v0"], prj["pattern"], [(pre + "bumpver.toml", ['version = "{version}"'] if embedded else ['current_version = "{version}"'] + (["# release {version}"] if respell else [])),
                                                                                     (pre + "a.txt", ["ver={version}", "pep={pep440_version}"]),
                                                                                     (docs, [prj["partial"]])],       # a file with a PARTIAL pattern only
-                                                        commit=True, tag=True, push=False, extra={"tag_scope": ([s["scope"] for s in hist if s["act"] == "update"] or ["default"])[0]})
+                                                        commit=True, tag=True, push=False, extra=dict({"tag_scope": ([s["scope"] for s in hist if s["act"] == "update"] or ["default"])[0]}, **({"pre_commit_hook": "stamp.sh"} if hooked else {})))
                    + ("\n# release %s\n" % prj["v0"] if respell else "") + ('\n[project]\nname = "demo"\nversion = "%s"\n' % prj["v0"] if embedded else ""))
         # both occurrences on ONE line, the pattern listed second to the left of the one listed first (replacements must not depend on the order of the patterns)
         proj.write("a.txt", "intro\npep=%s ver=%s\n" % (pep0, prj["v0"]))
         part0 = v2version.format_version(v2version.parse_version_info(prj["v0"], prj["pattern"]), prj["partial"])
         proj.write(docs, "documentation\n%s\nend\n" % part0)
         proj.write("other.txt", "tracked, carries no version pattern\n")
+        if hooked:
+            proj.write("stamp.sh", "#!/bin/sh\necho \"built for $BUMPVER_NEW_VERSION\" >> a.txt\n")
+            os.chmod(os.path.join(root, "stamp.sh"), 0o755)
         git(root, "add", "-A"); git(root, "commit", "-q", "-m", "init")
         proj.write("untracked.tmp", "never added: must not appear in any bump commit\n")
         n_unrel = 0
@@ -134,6 +139,9 @@ def replay(job):
                         problems.append(("tag-at-head", at, txt(st["new"])))
                     if not st["tagit"] and at:
                         problems.append(("unexpected-tag", at))
+                    left = [ln for ln in git(root, "status", "--porcelain").split("\n") if ln[3:].strip('"') in ("a.txt", "bumpver.toml", docs)]
+                    if left:
+                        problems.append(("configured-file-left-uncommitted", left))
                     if st.get("other_dirty") and " M other.txt" not in git(root, "status", "--porcelain").split("\n"):
                         problems.append(("unrelated-modification-no-longer-uncommitted", git(root, "status", "--porcelain")))
                 if not st["ok"] and not st["commit"] and False:
